@@ -60,6 +60,17 @@ def mkcfg(kind, c, rng):
     return cfg
 
 
+def fit_ahead(sc):
+    """an event time running 20 h ahead of the wall clock leaves under 4 h of room below the engine's 24 h future guard: a scenario whose
+    timestamps span more than 3 h runs with the ordinary time base (otherwise its last rows ARE far-future garbage and are rightly ignored)"""
+    cfg = sc["cfg"]
+    if cfg.get("ahead"):
+        top = max([st.get("ts", 0) for st in sc["steps"] if st.get("a") == "add"] or [0])
+        if top * cfg["unit"] > 3 * 3600 * 1000:
+            cfg["ahead"] = False
+    return sc
+
+
 def mkcfg0(kind, c, rng):
     unit = rng.choice(UNITS)
     period = c["size"] * c.get("slide", 1)
@@ -145,13 +156,13 @@ def run_family(prop, tier, plan, free_plan, assumptions, mc_extra=(), post=None,
                 sampled = True
             for steps in steps_list:
                 n += 1
-                sc = {"tr": n, "cfg": mkcfg(kind, c, rng), "steps": steps, "free": False}
+                sc = fit_ahead({"tr": n, "cfg": mkcfg(kind, c, rng), "steps": steps, "free": False})
                 scen[n] = sc
                 f.write(json.dumps(sc) + "\n")
         for kind, c, count, length in free_plan:
             for _ in range(count):
                 n += 1
-                sc = {"tr": n, "cfg": mkcfg(kind, c, rng), "steps": random_free(kind, c, rng, length), "free": True}
+                sc = fit_ahead({"tr": n, "cfg": mkcfg(kind, c, rng), "steps": random_free(kind, c, rng, length), "free": True})
                 if c.get("perf"):
                     sc["perf"] = c["perf"]      # overflow strategy / buffer sizes / slowed consumer
                 scen[n] = sc
@@ -279,7 +290,7 @@ def session_late_stage(res, rng, vh, scen, plan, free_plan):
         for kind, c, count, length in free_plan:
             for _ in range(count):
                 base += 1
-                mine[base] = {"tr": base, "cfg": mkcfg(kind, c, rng), "steps": random_free(kind, c, rng, length), "free": True}
+                mine[base] = fit_ahead({"tr": base, "cfg": mkcfg(kind, c, rng), "steps": random_free(kind, c, rng, length), "free": True})
                 f.write(json.dumps(mine[base]) + "\n")
     rc, out = vlib.sh([vh, "win", "-scen", sc_path, "-out", tr_path, "-par", "16"], 1500)
     if rc != 0:
